@@ -28,9 +28,12 @@ import (
 )
 
 var (
-	errC      = errors.New("cancel-matching error")
-	errN      = errors.New("plain error")
-	errLoser  = errors.New("attempt was cancelled")
+	errC     = errors.New("cancel-matching error")
+	errN     = errors.New("plain error")
+	errLoser = errors.New("attempt was cancelled")
+	// an attempt that fails on its own with an error that looks like a cancellation (a downstream call that gave up on a
+	// context of its own): nobody cancelled the attempt, its result counts like any other
+	errK      = fmt.Errorf("downstream call gave up: %w", context.Canceled)
 	errLoser2 = errors.New("another error that is never produced")
 )
 
@@ -59,7 +62,7 @@ type scenario struct {
 
 type outc struct {
 	Kind  string `json:"kind"`   // match | nomatch
-	Err   string `json:"err"`    // "" | C | N
+	Err   string `json:"err"`    // "" | C | N | K (an error of the attempt's own that wraps context.Canceled)
 	DurUs int64  `json:"dur_us"` // auto mode: how long the attempt takes; -1 = until cancelled
 }
 
@@ -88,6 +91,8 @@ func (sc scenario) errOf(i int) error {
 		return nil // result conditions are stated for outcomes without an error
 	case o.Err == "N":
 		return errN
+	case o.Err == "K":
+		return errK
 	}
 	return nil
 }
@@ -563,7 +568,7 @@ func genScenario(t *rapid.T) scenario {
 	}
 	anyFinishes := false
 	for i := 0; i <= sc.MaxHedges; i++ {
-		o := outc{Kind: rapid.SampledFrom([]string{"match", "nomatch", "nomatch"}).Draw(t, "kind"), Err: rapid.SampledFrom([]string{"", "", "N"}).Draw(t, "err")}
+		o := outc{Kind: rapid.SampledFrom([]string{"match", "nomatch", "nomatch"}).Draw(t, "kind"), Err: rapid.SampledFrom([]string{"", "", "N", "K"}).Draw(t, "err")}
 		if sc.Mode == "auto" {
 			o.DurUs = rapid.SampledFrom([]int64{0, 100, 1000, 4000, 8000, -1}).Draw(t, "durUs")
 			if o.DurUs >= 0 {
@@ -683,6 +688,16 @@ func TestRegress(t *testing.T) {
 		if json.Unmarshal(b, &head) == nil && head.Test == "TestHedgeInnerTimeout" {
 			for i := 0; i < reps; i++ {
 				runInnerTimeout(t, "TestRegress", st, head.Scenario)
+			}
+			continue
+		}
+		var fhead struct {
+			Test     string    `json:"test"`
+			Scenario finalScen `json:"scenario"`
+		}
+		if json.Unmarshal(b, &fhead) == nil && fhead.Test == "TestHedgeFinalPathRounds" {
+			for i := 0; i < reps; i++ {
+				runFinalRounds(t, "TestRegress", st, fhead.Scenario)
 			}
 			continue
 		}
